@@ -19,6 +19,23 @@ def pt_identity(u):
     return np.array(u, dtype=float)
 
 
+def pt_identity_view(u):
+    """Legal and common: the unit cube IS the prior; the transform hands back its argument (no copy)."""
+    return u
+
+
+def pt_affine_list(u):
+    return (20.0 * np.asarray(u) - 10.0).tolist()
+
+
+def pt_affine_index(u):
+    """Writes the components one by one into a copy of its input (cannot be applied to a batch by accident)."""
+    x = np.array(u, dtype=float)
+    for i in range(x.shape[0]):
+        x[i] = 20.0 * float(u[i]) - 10.0
+    return x
+
+
 def blob_of(x):
     """Injective-in-practice scalar tag of a point (distinct generic x -> distinct tag)."""
     x = np.asarray(x, dtype=float)
